@@ -342,7 +342,8 @@ func (fl *flattener) expr(e *Expr, par, dir int) int {
 	switch e.K {
 	case "leaf":
 		return fl.newE(FNode{"k": "leaf", "par": par, "dir": dir, "typ": e.Typ, "opnd": e.Opnd,
-			"toks": strs(e.Toks), "form": e.Form, "op": e.Op, "val": e.Val, "strict": e.Strict})
+			"toks": strs(e.Toks), "form": e.Form, "op": e.Op, "val": e.Val, "strict": e.Strict,
+			"multi": strings.Contains(e.Val, " ")})
 	case "not":
 		id := fl.newE(FNode{"k": "not", "par": par, "dir": dir})
 		fl.f.E[id-1]["e"] = fl.expr(e.E, id, 1)
